@@ -69,18 +69,40 @@ def select_before_assign(ctx, clause):
         obs.append(Ob(clause, "R-ORDER", "R-ORDER|select-before-assign|%s" % f.short, f.loc(stores[0]), ok,
                       "shape.statements receives only selected (grouped) statements, tuned once" if ok else why))
     sel = p.func(ASS + "_select_valid_statements_of_shape")
-    calls = [x for x in walk_own(sel.node) if isinstance(x, ast.Assign) and isinstance(x.value, ast.Call)
-             and isinstance(x.value.func, ast.Attribute) and x.value.func.attr in
-             ("_group_constraints_with_same_prop_and_obj", "_group_node_constraints")]
-    calls.sort(key=lambda x: x.lineno)
-    names = [c.value.func.attr for c in calls]
-    ok = names == ["_group_constraints_with_same_prop_and_obj", "_group_node_constraints"]
-    if ok:
-        first_t = calls[0].targets[0]
-        arg2 = calls[1].value.args[0] if calls[1].value.args else None
-        ok = isinstance(first_t, ast.Name) and isinstance(arg2, ast.Name) and arg2.id == first_t.id
-        ret = [x for x in walk_own(sel.node) if isinstance(x, ast.Return) and isinstance(x.value, ast.Name)]
-        ok = ok and any(isinstance(calls[1].targets[0], ast.Name) and r.value.id == calls[1].targets[0].id for r in ret)
+    # value flow, not statement shape: every non-trivial return of the selection is
+    # _group_node_constraints(_group_constraints_with_same_prop_and_obj(<the parameter>)), through any number of locals
+    STAGES = ("_group_constraints_with_same_prop_and_obj", "_group_node_constraints")
+    params = [a.arg for a in sel.node.args.args if a.arg != "self"]
+
+    def _value_of(e, depth=0):
+        """the expression a local stands for at `e` (latest preceding assignment), followed through plain copies"""
+        while isinstance(e, ast.Name) and depth < 6 and e.id not in params:
+            defs = [x for x in walk_own(sel.node) if isinstance(x, ast.Assign) and x.lineno < e.lineno
+                    and any(isinstance(t, ast.Name) and t.id == e.id for t in x.targets)]
+            if not defs:
+                return e
+            e = max(defs, key=lambda x: x.lineno).value
+            depth += 1
+        return e
+
+    def _stage(e):
+        return e.func.attr if isinstance(e, ast.Call) and isinstance(e.func, ast.Attribute) and isinstance(e.func.value, ast.Name) \
+            and e.func.value.id == "self" and e.func.attr in STAGES and len(e.args) == 1 and not e.keywords else None
+
+    names, chained = [], 0
+    for r in [x for x in walk_own(sel.node) if isinstance(x, ast.Return) and x.value is not None]:
+        v = _value_of(r.value)
+        if _stage(v) is None:
+            if any(_stage(c) for c in ast.walk(v) if isinstance(c, ast.Call)):
+                names.append("a grouping stage inside `%s`" % norm(v)[:40])
+            continue  # the early return of the untouched (empty) input
+        inner = _value_of(v.args[0])
+        src = _value_of(inner.args[0]) if _stage(inner) else None
+        names.append("%s(%s(%s))" % (_stage(v), _stage(inner), norm(src)[:30] if src is not None else "?"))
+        if _stage(v) == STAGES[1] and _stage(inner) == STAGES[0] and isinstance(src, ast.Name) and src.id in params:
+            chained += 1
+    n_stage_calls = len([c for c in walk_own(sel.node) if _stage(c)])
+    ok = chained >= 1 and chained == len(names) and n_stage_calls == 2 * chained
     obs.append(Ob(clause, "R-ORDER", "R-ORDER|grouping-order|%s" % sel.short, sel.loc(), ok,
                   "same-kind grouping feeds node-kind grouping, whose result is returned" if ok else
                   "grouping stages are not chained same-kind -> node-kind -> return (found %s)" % names))
